@@ -9,3 +9,4 @@ for id in $ids; do
   echo "$id $tier exit=$rc $(( $(date +%s) - s ))s $(echo "$out" | grep -c '^VIOLATION') violations; $(echo "$out" | grep "^$id $tier" | tail -1 | cut -c1-200)"
   [ $rc -ne 0 ] && echo "$out" | grep -A4 "^VIOLATION\|HARNESS\|BUILD" | head -30 | cut -c1-400
 done
+exit 0
